@@ -418,6 +418,8 @@ def make_resource(runner):
         def __init__(self):
             super().__init__()
             self.value = 0
+            self.c08_rendered = set()
+            self.c08_cache = {}
 
         async def add_observation(self, request, serverobservation):
             sv = runner.cur_sv()
@@ -460,6 +462,14 @@ def make_resource(runner):
                 e = RuntimeError("render failed") if code == 160 else EXC[code]()
                 e.c08_planned = True
                 raise e
+            if runner.script.get("cached_render"):
+                # a resource that keeps its rendering of a state and hands that very object to every observer it
+                # notifies of it (the first response of a registration is rendered afresh: what the library does
+                # with response objects of plain requests is C09's and C03's topic)
+                if sv in self.c08_rendered:
+                    return self.c08_cache.setdefault(
+                        (ver, code), aiocoap.Message(code=aiocoap.Code(code), payload=str(ver).encode()))
+                self.c08_rendered.add(sv)
             return aiocoap.Message(code=aiocoap.Code(code), payload=str(ver).encode())
 
     return Res()
